@@ -175,6 +175,80 @@ def gossip3(rng, frames, **over):
     return p
 
 
+def stale3(rng, frames, **over):
+    """Three peers A B C, dense saving.  A loses B's packets for a few frames and mispredicts them while C's inputs keep
+    coming; when the link heals A re-simulates frames that are all confirmed by then.  C's link to B is cut a little
+    before C dies, so B holds one or two frames less of C than A; B disconnects C explicitly and A, adopting B's
+    earlier cut-off, rolls back to its confirmed frame (or the one before): the cell it loads must hold the
+    re-simulated state, not the abandoned one (C02: disconnect-driven rollbacks reach confirmed frames)."""
+    p = general(rng, frames + 60, npeers=3, max_locals=1, window=8, **over)
+    p["cfg"]["timeout"] = 8000
+    p["cfg"]["notify"] = 4000
+    p["cfg"]["desync"] = 0
+    p["cfg"]["sparse"] = False
+    perm = [0, 1, 2]
+    rng.shuffle(perm)
+    a, b, c = perm
+    f = rng.randrange(12, max(13, frames))
+    out = rng.choice([3, 4, 5])                # frames of B that A misses
+    k = f + out + rng.choice([0, 1])           # C's last frame
+    p["cuts"] = [{"from": b, "to": a, "at_frame": f, "len": 16 * out + 4},
+                 {"from": c, "to": b, "at_frame": k - rng.choice([1, 2])}]
+    p["kills"] = [{"p": c, "at_frame": k}]
+    p["discs"] = [{"p": b, "h": c, "at_frame": k + rng.choice([2, 3, 4])}]
+    p["tick_ms"] = [16, 16, 16]
+    p["jitter"] = 0
+    p["lat_lo"] = rng.choice([2, 5])
+    p["lat_hi"] = p["lat_lo"]
+    p["loss"] = 0.0
+    p["dup"] = 0.0
+    p["alphabet"] = 16
+    p["change"] = 1.0
+    p["p_pause"] = 0.0
+    p["p_poll"] = 0.0
+    p["settle_ms"] = 400
+    p["max_ms"] = 30000
+    for pc in p["cfg"]["peers"]:
+        pc["delay"] = 0
+    return p
+
+
+def gossip4(rng, frames, **over):
+    """Four peers A B C D, lossless links.  D's links are cut one after the other (C first, then B, then A), C's
+    link to A is cut as well (so A keeps the frames it needs), D dies and B disconnects it explicitly: A then hears
+    'disconnected at Lb' from B while its last news from C says 'connected at Lc' with Lc < Lb < A's own view.  The
+    frame A cuts D off at must be the minimum over all reports whatever order its endpoints are visited in (C17)."""
+    p = general(rng, frames + 60, npeers=4, max_locals=1, window=8, **over)
+    p["cfg"]["timeout"] = 8000
+    p["cfg"]["notify"] = 4000
+    p["cfg"]["desync"] = 0
+    p["cfg"]["sparse"] = False
+    perm = [0, 1, 2, 3]
+    rng.shuffle(perm)
+    a, b, c, d = perm
+    f = rng.randrange(12, max(13, frames))
+    g1, g2 = rng.choice([(2, 4), (1, 3), (2, 3), (3, 5)])
+    p["cuts"] = [{"from": d, "to": c, "at_frame": f}, {"from": c, "to": a, "at_frame": f},
+                 {"from": d, "to": b, "at_frame": f + g1}, {"from": d, "to": a, "at_frame": f + g2}]
+    p["kills"] = [{"p": d, "at_frame": f + g2 + 1}]
+    p["discs"] = [{"p": b, "h": d, "at_frame": f + g1 + rng.choice([4, 5, 6])}]
+    p["tick_ms"] = [16, 16, 16, 16]
+    p["jitter"] = 0
+    p["lat_lo"] = rng.choice([5, 20])
+    p["lat_hi"] = p["lat_lo"]
+    p["loss"] = 0.0
+    p["dup"] = 0.0
+    p["alphabet"] = 16
+    p["change"] = 1.0
+    p["p_pause"] = 0.0
+    p["p_poll"] = 0.0
+    p["settle_ms"] = 600
+    p["max_ms"] = 30000
+    for pc in p["cfg"]["peers"]:
+        pc["delay"] = 0
+    return p
+
+
 def lockwait(rng, frames, **over):
     """Lockstep sessions (window 0) driven through advance_frame_with_wait_timeout: a stalled call polls for
     up to wait_ms while packets arrive, and advances in the same call once the frame is confirmed."""
